@@ -5,7 +5,7 @@ rows = []
 for f in sorted(glob.glob('/verif/seeded/*/meta.json')):
     m = json.load(open(f))
     res = m['result']
-    status = 'missed at first, check strengthened, now detected' if res.startswith('MISSED') else 'detected'
+    status = 'missed at first, check strengthened, now detected' if res.lower().startswith('missed') else 'detected'
     if m.get('status') == 'neutralised':
         status += '; NEUTRALISED since by fix 124d74c (its demonstration passes with the change applied to the repaired tree)'
     if m.get('status') == 'out-of-scope':
